@@ -7,6 +7,7 @@ package vh
 
 import (
 	"bufio"
+	"context"
 	"crypto/sha256"
 	"encoding/binary"
 	"encoding/json"
@@ -14,6 +15,7 @@ import (
 	"fmt"
 	"hash/fnv"
 	"os"
+	"os/exec"
 	"path/filepath"
 	"runtime/debug"
 	"sort"
@@ -21,6 +23,7 @@ import (
 	"strings"
 	"sync"
 	"testing"
+	"time"
 
 	"pgregory.net/rapid"
 )
@@ -308,6 +311,11 @@ type Def[C any] struct {
 	Quick    int // rapid cases per run, whole run (divided among shards)
 	Thorough int
 	Journal  bool // write the case to current-<pid>.json before running it (crash-prone checks)
+	Isolate  bool // run every case in a child process (cases that may kill the process)
+	// ChildTimeout bounds one isolated case (default 120 s); a time-out is reported as class "child-timeout"
+	ChildTimeout time.Duration
+	// CrashClass, when set, is appended to the class key of a crash of an isolated case
+	CrashClass func(c C) string
 	Gen      func(t *rapid.T) C
 	Run      func(c C) Result
 }
@@ -333,6 +341,9 @@ func (d *Def[C]) replay(raw json.RawMessage) (Result, error) {
 // safeRun converts a panic on the calling goroutine into a violation, so that
 // the case is saved like any other failure.
 func (d *Def[C]) safeRun(c C) (res Result) {
+	if d.Isolate && os.Getenv("VERIF_CHILD_RESULT") == "" {
+		return d.runInChild(c)
+	}
 	defer func() {
 		if r := recover(); r != nil {
 			res.NonTrivial = true
@@ -340,6 +351,67 @@ func (d *Def[C]) safeRun(c C) (res Result) {
 		}
 	}()
 	return d.Run(c)
+}
+
+// runInChild executes the case in a fresh process (the test binary itself, in
+// replay mode) so that a fatal error in the library cannot take the harness
+// down; a crash becomes a violation whose class key names the crash kind.
+func (d *Def[C]) runInChild(c C) (res Result) {
+	e := getenv()
+	b, _ := json.Marshal(c)
+	base := filepath.Join(e.out, fmt.Sprintf("child-%d-%d", e.shard, os.Getpid()))
+	casePath, resPath := base+"-case.json", base+"-result.json"
+	writeCaseFile(casePath, d.Property, d.check(), b, nil)
+	_ = os.Remove(resPath)
+	timeout := d.ChildTimeout
+	if timeout == 0 {
+		timeout = 120 * time.Second
+	}
+	ctx, cancel := context.WithTimeout(context.Background(), timeout)
+	defer cancel()
+	cmd := exec.CommandContext(ctx, os.Args[0], "-test.run", "^TestReplay$", "-test.timeout", "0")
+	cmd.Env = append(os.Environ(), "VERIF_REPLAY="+casePath, "VERIF_CHILD_RESULT="+resPath)
+	out, err := cmd.CombinedOutput()
+	if rb, rerr := os.ReadFile(resPath); rerr == nil {
+		var r Result
+		if json.Unmarshal(rb, &r) == nil {
+			return r
+		}
+	}
+	res.NonTrivial = true
+	txt := string(out)
+	suffix := ""
+	if d.CrashClass != nil {
+		suffix = ":" + d.CrashClass(c)
+	}
+	switch {
+	case ctx.Err() != nil:
+		res.Violations = append(res.Violations, V("child-timeout"+suffix, "case did not finish within %v in a child process", timeout))
+	case strings.Contains(txt, "stack overflow"):
+		i := strings.Index(txt, "stack overflow")
+		j := i + 1800
+		if j > len(txt) {
+			j = len(txt)
+		}
+		if i > 200 {
+			i -= 200
+		} else {
+			i = 0
+		}
+		res.Violations = append(res.Violations, V("crash-stack-overflow"+suffix, "child process died with a stack overflow: %s", txt[i:j]))
+	case strings.Contains(txt, "panic:") || strings.Contains(txt, "fatal error:"):
+		res.Violations = append(res.Violations, V("crash-panic"+suffix, "child process died: %s", tail(txt, 3000)))
+	default:
+		res.Violations = append(res.Violations, V("harness-child", "child process failed without a result (%v): %s", err, tail(txt, 1500)))
+	}
+	return res
+}
+
+func tail(s string, n int) string {
+	if len(s) > n {
+		return "..." + s[len(s)-n:]
+	}
+	return s
 }
 
 // Define registers a check so that the replay / regress tiers can find it.
@@ -555,6 +627,11 @@ func runFile(path string, countKnown bool) ([]Violation, string, error) {
 	if err != nil {
 		return nil, cf.Check, err
 	}
+	if rp := os.Getenv("VERIF_CHILD_RESULT"); rp != "" {
+		rb, _ := json.Marshal(res)
+		_ = os.WriteFile(rp, rb, 0o644)
+		return nil, cf.Check, nil
+	}
 	record(r.property(), cf.Check, "", cf.Case, &res)
 	var unknown []Violation
 	for _, v := range res.Violations {
@@ -591,7 +668,9 @@ func Regress(t *testing.T, property string) {
 // Main is the TestMain body.
 func Main(m *testing.M) {
 	code := m.Run()
-	Flush()
-	flushSurvey()
+	if os.Getenv("VERIF_CHILD_RESULT") == "" {
+		Flush()
+		flushSurvey()
+	}
 	os.Exit(code)
 }
